@@ -175,31 +175,76 @@ def guards_at(cfg: CFG, b: int) -> List[Tuple[ast.expr, bool]]:
     return _close(out)
 
 
-def _close(fs: List[Tuple[ast.expr, bool]]) -> List[Tuple[ast.expr, bool]]:
-    """Unit resolution: not (A and B) with A gives not B; (A or B) with not A gives B.  Atoms compared by norm()."""
+_NEG = {ast.IsNot: ast.Is, ast.NotIn: ast.In, ast.NotEq: ast.Eq}
+
+
+def _canon(a: ast.expr, pol: bool) -> Tuple[ast.expr, bool]:
+    """x is not y / x not in y / x != y  ->  the positive comparison with the polarity flipped."""
+    if isinstance(a, ast.Compare) and len(a.ops) == 1 and type(a.ops[0]) in _NEG:
+        b = ast.Compare(left=a.left, ops=[_NEG[type(a.ops[0])]()], comparators=a.comparators)
+        return b, (not pol)
+    return a, pol
+
+
+def facts_canon(test: ast.expr, polarity: bool) -> List[Tuple[ast.expr, bool]]:
+    return [_canon(a, p) for a, p in facts_of(test, polarity)]
+
+
+def _close(fs: List[Tuple[ast.expr, bool]], keep_canon: bool = False) -> List[Tuple[ast.expr, bool]]:
+    """Unit resolution: not (A and B) with A gives not B; (A or B) with not A gives B.  Atoms are compared by norm()
+    after canonicalising complementary comparisons.  Returns the given facts plus the derived ones."""
     out = list(fs)
+    known = set()
+    for a, pol in out:
+        c, cp = _canon(a, pol)
+        known.add((norm(c), cp))
     changed = True
     while changed:
         changed = False
-        known = {(norm(a), pol) for a, pol in out}
         for a, pol in list(out):
             if isinstance(a, ast.BoolOp):
                 is_and = isinstance(a.op, ast.And)
                 if (is_and and pol is False) or ((not is_and) and pol is True):
-                    want = True if is_and else False  # value that does not decide the operand
+                    want = True if is_and else False  # the value that does not decide the operand
                     undecided = []
                     for v in a.values:
-                        vf = facts_of(v, want)
-                        if all((norm(x), p) in known for x, p in vf):
+                        vf = facts_canon(v, want)
+                        if vf and all((norm(x), p) in known for x, p in vf):
                             continue  # this operand is known not to be the deciding one
                         undecided.append(v)
                     if len(undecided) == 1:
                         for x, p in facts_of(undecided[0], not want):
-                            if (norm(x), p) not in known:
+                            c, cp = _canon(x, p)
+                            if (norm(c), cp) not in known:
                                 out.append((x, p))
-                                known.add((norm(x), p))
+                                known.add((norm(c), cp))
                                 changed = True
     return out
+
+
+def contradictory(fs: List[Tuple[ast.expr, bool]]) -> bool:
+    """The facts cannot all hold (propositional reasoning over the atoms only)."""
+    out = _close(list(fs))
+    known = {}
+    for a, pol in out:
+        a, pol = _canon(a, pol)
+        k = norm(a)
+        if k in known and known[k] != pol:
+            return True
+        known[k] = pol
+    for a, pol in out:
+        if isinstance(a, ast.BoolOp):
+            is_and = isinstance(a.op, ast.And)
+            vals = []
+            for v in a.values:
+                t = all(known.get(norm(x)) == p for x, p in facts_canon(v, True)) and bool(facts_of(v, True))
+                f = all(known.get(norm(x)) == p for x, p in facts_canon(v, False)) and bool(facts_of(v, False))
+                vals.append(True if t else (False if f else None))
+            if is_and and pol is False and all(v is True for v in vals):
+                return True
+            if (not is_and) and pol is True and all(v is False for v in vals):
+                return True
+    return False
 
 
 def stmt_of(fi: FunctionInfo, node: ast.AST) -> ast.stmt:
